@@ -130,6 +130,11 @@ def curated():
     out.append(D("within-crossed", [c2, w2, cong], cross(["c", "w", "k"], ["c", "k"]), ["within", "derived-crossed"]))
     out.append(D("within-only-crossed-min4", [c2, w2, cong], cross(["c", "w", "k"], ["k"], [["MinimumTrials", 4]]), ["within", "derived-crossed", "mintrials"]))
     out.append(D("within-only-crossed-min5", [c2, w2, cong], cross(["c", "w", "k"], ["k"], [["MinimumTrials", 5]]), ["within", "derived-crossed", "mintrials", "partial"]))
+    # a derived level accepted by many (> 8) combinations of its sources
+    w4 = fac("w", ["r", "g", "b", "y"])
+    out.append(D("within-3x4-atmost", [e3, w4, within_eq("k", "e", "w", A3, ["r", "g", "b", "y"])], cross(["e", "w", "k"], ["e"], [["AtMostKInARow", 1, "k", "same"]]), ["within", "atmost", "wide-table"]))
+    # a within-trial derived factor with uncrossed sources crossed with a transition over it
+    out.append(D("within+transition-crossed", [c2, w2, cong, transition_rep("s", "k", ["same", "diff"])], cross(["c", "w", "k", "s"], ["k", "s"]), ["within", "transition", "derived-crossed", "preamble"]))
     out.append(D("within-atmost", [c2, w2, cong], cross(["c", "w", "k"], ["c", "w"], [["AtMostKInARow", 1, "k", "same"]]), ["within", "atmost"]))
     out.append(D("within-exclude-derived", [c2, w2, cong], cross(["c", "w", "k"], ["c", "k"], [["Exclude", "k", "same"]], rcc=False), ["within", "exclude"]))
     # Exclude of a within-trial derived level whose sources are not all crossed (nothing removes it by construction in the combinatoric sampler)
